@@ -1,5 +1,6 @@
 """C07 - escaped values decode back to the exact original text (DESIGN section 7 C07)."""
 import json
+import time
 from concurrent.futures import ThreadPoolExecutor
 import rig
 from rig import Infra
@@ -78,6 +79,13 @@ def run(ctx, replay_case=None):
     extra = ctx.pick(500, 20000)
     if replay_case is not None:
         extra = 0
+    phase, t0 = {}, time.time()
+
+    def lap(name):
+        nonlocal t0
+        phase[name] = round(time.time() - t0, 1)
+        t0 = time.time()
+        ctx.cov["phase_wall_s"] = phase
     # 1. model check the transcription against the reference decoders; export the cases
     #    (a replay re-runs one stored case on the real code: no model check)
     wd = ctx.stage("mc", FAMS)
@@ -99,6 +107,7 @@ def run(ctx, replay_case=None):
             ctx.cov["actions_never_taken"] = r.coverage_zero()
         if not cases.exists():
             raise Infra("no cases.ndjson exported by MC_Escapers")
+    lap("model_check_and_export")
     # 2. replay into the real templates
     obs = ctx.work / "obs.ndjson"
     ctx.drive("c07", cases, obs, args=["-extra", str(extra)])
@@ -122,6 +131,7 @@ def run(ctx, replay_case=None):
                         "broken): %s" % (kinds["nodelim"], ctx.cov["not_rendered_example"]))
         if len(notok) == len(allobs):
             raise Infra("no template rendered: %s" % ctx.cov["not_rendered_example"])
+    lap("build_and_drive")
     # 3. judge every observation by the Trace spec
     bads, diag = judge(ctx, "trace", allobs)
     if diag.get("records") != len(allobs):
@@ -133,6 +143,7 @@ def run(ctx, replay_case=None):
     if both:
         ctx.cov["model_drift"] = ("real output differs from BOTH transcriptions of the escapers on at least %d of %d records "
                                   "(diagnostic only; the verdict is from the reference decoders)" % (both, diag["records"]))
+    lap("judge")
     # 4. reproduction guard: the failing cases again, in a fresh process, judged again
     confirmed = []
     if bads:
@@ -163,6 +174,7 @@ def run(ctx, replay_case=None):
     if d3["nbad"] < len(st):
         raise Infra(f"sensitivity self-test failed: {len(st)} corrupted observations, only {d3['nbad']} rejected")
 
+    lap("confirm_and_selftest")
     # 6. verdict
     def rw(rdir, b):
         (rdir / "case.json").write_text(json.dumps(case_of(b["obs"])))
